@@ -72,6 +72,11 @@ Fixpoint last_opt {A} (l : list A) : option A :=
   match l with [] => None | [x] => Some x | _ :: r => last_opt r end.
 Fixpoint upd_last {A} (f : A -> A) (l : list A) : list A :=
   match l with [] => [] | [x] => [f x] | x :: r => x :: upd_last f r end.
+Fixpoint split_last {A} (l : list A) : option (list A * A) :=
+  match l with
+  | [] => None
+  | x :: r => match split_last r with None => Some ([], x) | Some (i, y) => Some (x :: i, y) end
+  end.
 Definition seg_msgs_count (s : seg) : N := if s_size s =? 0 then 0 else s_cur s - s_start s + 1.
 Definition seg_full (c : cfg) (s : seg) : bool := c_seg c <=? s_size s.   (* open segments are never "expired" *)
 Definition nmemb (x : N) (l : list N) : bool := existsb (N.eqb x) l.
@@ -108,8 +113,7 @@ Definition seg_persist (c : cfg) (s : seg) : seg * N (* bytes added to the count
       end
   end.
 
-(* Segment::append_batch: [bsize] is the size handed down by System::append_messages (all messages of the
-   request, before deduplication), [ms] the retained messages (non-empty) *)
+(* Segment::append_batch: [bsize] is the accounted size of the retained messages [ms] (non-empty) *)
 Definition seg_append (s : seg) (bsize : N) (ms : list msg) : seg :=
   let first_off := match ms with m :: _ => m_off m | [] => 0 end in
   let lastm := last_opt ms in
@@ -156,46 +160,42 @@ Definition append (c : cfg) (p : part) (now : N) (ms : list (N * N * N)) : part 
   else match ms with
   | [] => (p, OK)
   | _ =>
-    (* a closed last segment is replaced by a fresh one first *)
-    let segs0 := match last_opt (p_segs p) with
-                 | Some l => if s_closed l then p_segs p ++ [seg_new (s_end l + 1) now] else p_segs p
-                 | None => p_segs p
-                 end in
-    let bsize := fold_right (fun '(_, len, hl) a => 45 + len + hl + a) 0 ms in
-    let base := if p_inc p then p_cur p + 1 else 0 in
-    let '(seen', kept) := if c_dedup c then dedup (p_seen p) ms else (p_seen p, ms) in
-    let rms := number base now kept in
-    match rms with
-    | [] => ({| p_cur := p_cur p; p_inc := p_inc p; p_unsaved := p_unsaved p; p_segs := segs0; p_cache := p_cache p;
-                p_seen := seen'; p_coffs := p_coffs p; p_goffs := p_goffs p; p_msgs := p_msgs p; p_size := p_size p |}, OK)
-    | _ =>
-      let count := nlen rms in
-      let cur' := base + count - 1 in
-      let segs1 := upd_last (fun s => seg_append s bsize rms) segs0 in
-      let unsaved1 := p_unsaved p + count in
-      let must := (c_req c <=? unsaved1) || match last_opt segs1 with Some l => seg_full c l | None => false end in
-      let '(segs2, extra) :=
-          if must then match last_opt segs1 with
-                       | Some l => let '(l', e) := seg_persist c l in (upd_last (fun _ => l') segs1, e)
-                       | None => (segs1, 0)
-                       end
-          else (segs1, 0) in
-      ({| p_cur := cur'; p_inc := true; p_unsaved := if must then 0 else unsaved1; p_segs := segs2;
-          p_cache := match p_cache p with Some ch => Some (ch ++ rms) | None => None end;
-          p_seen := seen'; p_coffs := p_coffs p; p_goffs := p_goffs p;
-          p_msgs := p_msgs p + count; p_size := p_size p + bsize + extra |}, OK)
+    match split_last (p_segs p) with
+    | None => (p, ENotFound)                       (* IggyError::SegmentNotFound *)
+    | Some (init, l) =>
+      (* a closed last segment is followed by a fresh one first *)
+      let '(pre, l0) := if s_closed l then (init ++ [l], seg_new (s_end l + 1) now) else (init, l) in
+      let base := if p_inc p then p_cur p + 1 else 0 in
+      let '(seen', kept) := if c_dedup c then dedup (p_seen p) ms else (p_seen p, ms) in
+      (* size handed down by System::append_messages minus the dropped duplicates = size of what is kept *)
+      let bsize := fold_right (fun '(_, len, hl) a => 45 + len + hl + a) 0 kept in
+      let rms := number base now kept in
+      match rms with
+      | [] => ({| p_cur := p_cur p; p_inc := p_inc p; p_unsaved := p_unsaved p; p_segs := pre ++ [l0]; p_cache := p_cache p;
+                  p_seen := seen'; p_coffs := p_coffs p; p_goffs := p_goffs p; p_msgs := p_msgs p; p_size := p_size p |}, OK)
+      | _ =>
+        let count := nlen rms in
+        let l1 := seg_append l0 bsize rms in
+        let unsaved1 := p_unsaved p + count in
+        let must := (c_req c <=? unsaved1) || seg_full c l1 in
+        let '(l2, extra) := if must then seg_persist c l1 else (l1, 0) in
+        ({| p_cur := base + count - 1; p_inc := true; p_unsaved := if must then 0 else unsaved1; p_segs := pre ++ [l2];
+            p_cache := match p_cache p with Some ch => Some (ch ++ rms) | None => None end;
+            p_seen := seen'; p_coffs := p_coffs p; p_goffs := p_goffs p;
+            p_msgs := p_msgs p + count; p_size := p_size p + bsize + extra |}, OK)
+      end
     end
   end.
 
 (* Partition::flush_unsaved_buffer *)
 Definition flush (c : cfg) (p : part) : part :=
   if p_unsaved p =? 0 then p
-  else match last_opt (p_segs p) with
+  else match split_last (p_segs p) with
        | None => p
-       | Some l =>
+       | Some (init, l) =>
            let '(l1, e1) := seg_persist c l in          (* writes the batch when the buffer is non-empty *)
            let '(l2, e2) := seg_persist c l1 in         (* second round drops the now empty accumulator *)
-           {| p_cur := p_cur p; p_inc := p_inc p; p_unsaved := 0; p_segs := upd_last (fun _ => l2) (p_segs p);
+           {| p_cur := p_cur p; p_inc := p_inc p; p_unsaved := 0; p_segs := init ++ [l2];
               p_cache := p_cache p; p_seen := p_seen p; p_coffs := p_coffs p; p_goffs := p_goffs p;
               p_msgs := p_msgs p; p_size := p_size p + e1 + e2 |}
        end.
@@ -552,9 +552,11 @@ Inductive obs :=
 | ORes (code : N)
 | OMsgs (cur : N) (ms : list omsg)
 | OOff (o : option N)
+| OLo (lo : N)
 | ODumped (cur : N) (inc : bool) (unsaved : N) (segs : list oseg) (cache : option (list N)) (msgs size : N).
 
 Definition reported_cur (p : part) : N := p_cur p.
+Definition first_start (p : part) : N := match p_segs p with s :: _ => s_start s | [] => 0 end.
 
 Definition pstep (cp : cfg * part) (o : op) : (cfg * part) * obs :=
   let '(c, p) := cp in
@@ -564,7 +566,7 @@ Definition pstep (cp : cfg * part) (o : op) : (cfg * part) * obs :=
   | OSave => ((c, save c p), ORes 0)
   | ORestart now => ((c, restart c now p), ORes 0)
   | OPurge now => ((c, purge c now p), ORes 0)
-  | OMaintain now => ((c, maintain c now p), ORes 0)
+  | OMaintain now => let p' := maintain c now p in ((c, p'), OLo (first_start p'))
   | OEvict b => ((c, evict p b), ORes 0)
   | OSetCfg e mx =>
       let c' := with_topic c e mx in ((c', p), ORes 0)
